@@ -237,6 +237,41 @@ def run_case(case, rng):
         case.count("astar_calls")
         if res is not case.FAIL:
             validate("astar", res, True, False)
+    if rng.random() < 0.3 and len(nodes) >= 3:
+        # a user's own MDP class keeping the start on the instance; after planning on it, a COPY of it with another start is
+        # planned on (copy.copy / deepcopy, then edit): the plan is for the copy
+        import copy as _copy
+        from msdm.core.mdp import MarkovDecisionProcess
+
+        class Maze(MarkovDecisionProcess):
+            discount_rate = 1.0
+
+            def __init__(self_, st): self_.start = st
+            def next_state_dist(self_, s, a): return DeterministicDistribution(next_state(s, a))
+            def initial_state_dist(self_): return DeterministicDistribution(self_.start)
+            def reward(self_, s, a, ns): return reward(s, a, ns)
+            def actions(self_, s): return actions_of[s]
+            def is_absorbing(self_, s): return is_abs(s)
+        mz = Maze(start)
+        pl_ = AStarSearch(heuristic_value=lambda s: 0)
+        first_ = case.call("AStarSearch.plan_on(user MDP)", pl_.plan_on, mz, facts=facts)
+        other_start = rng.choice([x for x in nodes if x != start])
+        mz2 = (_copy.copy if rng.random() < 0.5 else _copy.deepcopy)(mz)
+        mz2.start = other_start
+        for nm_, planner_ in (("astar", AStarSearch(heuristic_value=lambda s: 0)), ("bfs", BreadthFirstSearch())):
+            r2_ = case.call(f"{nm_}.plan_on(edited copy of a planned-on MDP)", planner_.plan_on, mz2, facts=facts)
+            case.count("plans_on_edited_copies")
+            if r2_ is case.FAIL:
+                continue
+            if dist[other_start] == float("inf"):
+                case.check(r2_ is None, f"{nm_}:plan-returned-but-no-goal-reachable", f"edited copy, start {other_start!r}")
+            elif case.check(r2_ is not None, f"{nm_}:no-plan-but-goal-reachable", f"edited copy, start {other_start!r}"):
+                p2_ = list(r2_.path)
+                case.check(p2_[0] == other_start, f"{nm_}:path-does-not-start-at-initial-state",
+                           f"edited copy: starts at {p2_[0]!r}, the copy's initial state is {other_start!r}")
+                if nm_ == "astar":
+                    case.check(r2_.path_value == dist[other_start] or p2_[0] != other_start, "astar:path-not-minimum-cost",
+                               f"edited copy: {r2_.path_value!r} vs {dist[other_start]!r}")
     bfs_seed = seed if rao else rng.choice([None, 3])
     bkw, _om = Dflt.rely_on_defaults(case, rng, "BreadthFirstSearch", dict(seed=bfs_seed, randomize_action_order=rao))
     bfs = BreadthFirstSearch(**bkw)
